@@ -87,7 +87,9 @@ def showKey (m : List KV) : String :=
 /-- `attr eq <filter> <A> <B>` : the keys of two measurements, whether they are one series, and (if so) whether the
     hashes agree -/
 def handleAttr : List String → String
-  | ["eq", f, a, b] =>
+  | [op, f, a, b] =>
+    -- `eqg` = the harness hands the keys over in guarded instead of exact-size buffers; same meaning
+    if op ≠ "eq" && op ≠ "eqg" then "bad-op" else
     match parseFilter f, parseAttrs a, parseAttrs b with
     | some f, some a, some b =>
       let ka := keyOf f a
@@ -153,7 +155,12 @@ def handleSeries : List String → String
     match natBelow 100000 limit with
     | some l => runSeries l f temps ops
     | none => "bad-op"
+  | "storeg" :: limit :: f :: temps :: ops =>
+    match natBelow 100000 limit with
+    | some l => runSeries l f temps ops
+    | none => "bad-op"
   | "sdk" :: f :: temps :: ops => runSeries Gen.kAggregationCardinalityLimit f temps ops
+  | "sdkg" :: f :: temps :: ops => runSeries Gen.kAggregationCardinalityLimit f temps ops
   | _ => "bad-op"
 
 def handlers : List (String × (List String → String)) := [("attr", handleAttr), ("series", handleSeries)]
